@@ -74,6 +74,14 @@ inline std::vector<BadArg> bad_values(std::size_t first_bad, bool thorough)
         add(std::size_t(1) << 32, "huge");
     }
     add(SZMAX, "max");
+    // values that fall back onto a VALID index once multiplied by an element size of 2, 4 or 8 (index -> pointer
+    // conversion wraps modulo 2^64): 2^63 + k, 2^62 + k, 2^61 + k for the valid k = 0 and k = first_bad - 1 (added after
+    // seeded breakage c05_erase_index_checked_as_pointer: erase(index,count) of a wide inplace_string checked the
+    // bound only after forming cbegin() + index)
+    for (int sh : {63, 62, 61}) {
+        add(std::size_t(1) << sh, "wraps_when_scaled_by_element_size");
+        if (first_bad >= 1) { add((std::size_t(1) << sh) + first_bad - 1, "wraps_when_scaled_by_element_size"); }
+    }
     return out;
 }
 
@@ -82,6 +90,11 @@ inline std::string show_sz(std::size_t v)
     if (v == SZMAX) { return "SIZE_MAX"; }
     if (v == SZMAX - 1) { return "SIZE_MAX-1"; }
     if (v == (std::size_t(1) << 63)) { return "2^63"; }
+    for (int sh : {63, 62, 61}) {
+        if (v > (std::size_t(1) << sh) && v - (std::size_t(1) << sh) < 70000) { return "2^" + std::to_string(sh) + "+" + std::to_string(v - (std::size_t(1) << sh)); }
+    }
+    if (v == (std::size_t(1) << 62)) { return "2^62"; }
+    if (v == (std::size_t(1) << 61)) { return "2^61"; }
     if (v == (std::size_t(1) << 63) - 1) { return "2^63-1"; }
     if (v == (std::size_t(1) << 32)) { return "2^32"; }
     if (v == (std::size_t(1) << 31)) { return "2^31"; }
